@@ -9,7 +9,7 @@ import (
 )
 
 func init() {
-	register(&Rule{ID: "NULL-1", Doc: "a JSON null zeroes its destination: every null branch of an unmarshal closure (a jsontext.Kind compared with 'n', in switch or if form) calls a zeroing setter on the destination (SetZero, SetBool(false), SetInt(0), ..., *p = zero) unless guarded by MergeWithLegacySemantics, and returns nil; the only exception is the invalid-type closure, which has nothing to zero", Run: ruleNULL1})
+	register(&Rule{ID: "NULL-1", Doc: "a JSON null zeroes its destination: every null branch of an unmarshal closure (a jsontext.Kind compared with 'n', in switch or if form) calls a zeroing setter on the destination (SetZero, SetBool(false), SetInt(0), ..., *p = zero) unless guarded by MergeWithLegacySemantics, and returns nil; the only exception is the invalid-type closure, which has nothing to zero; a quoted null (`string(val) == \"null\"`, the v1 `,string` case) is a null branch too; and wherever a null branch zeroes a bool/number/string destination with a typed setter, the zeroing is under a MergeWithLegacySemantics test (v1: null leaves a non-nil-able value unchanged)", Run: ruleNULL1})
 	register(&Rule{ID: "MERGE-1", Doc: "container merge semantics are wired as documented: the slice closure zeroes each reused element (the guard starts true and is cleared only right after Value.Grow) and trims to the number of elements on every exit after it expanded the length; the array closure zero-fills the missing tail; the map closure seeds the scratch value from the existing entry (unless MergeWithLegacySemantics), stores every decoded entry back, and records every stored key in the duplicate-tracking set when that set exists", Run: ruleMERGE1})
 	register(&Rule{ID: "ANYPATH-1", Doc: "the untyped fast paths are entered only under their documented guards: unmarshalValueAny requires a nil `any` destination, no AllowDuplicateNames/FormatTag and no caller function that applies to any-representable types; marshalValueAny requires `any`, no StringifyNumbers/TagFlags and no such caller function; the fromAny marker is the OR over all joined function lists and is computed by castableToFromAny for each function's own type; both routes parse numbers with 64 bits and build strings through makeString", Run: ruleANYPATH1})
 	register(&Rule{ID: "INTERN-1", Doc: "the string cache can only return an equal string: every return of makeString is string(b) of its argument or a cache entry on a path where the entry was compared equal to string(b) (or was just stored from it)", Run: ruleINTERN1})
@@ -78,8 +78,31 @@ func helpersCalledIn(p *Program, f *FuncInfo, n ast.Node) []*FuncInfo {
 	return out
 }
 
+// zeroSite is one statement that zeroes an unmarshal destination.
+type zeroSite struct {
+	pos    token.Pos
+	scalar bool   // a typed scalar setter (SetBool/SetInt/SetUint/SetFloat/SetString): the destination cannot be nil-able
+	flags  uint64 // option flags read by the conditions around it (inside body)
+}
+
 func zeroesIn(p *Program, f *FuncInfo, body ast.Node) (found bool, guardFlags uint64) {
+	for _, z := range zeroSitesIn(p, f, body) {
+		found = true
+		guardFlags |= z.flags
+	}
+	return
+}
+
+func zeroSitesIn(p *Program, f *FuncInfo, body ast.Node) (out []zeroSite) {
 	info := f.Info()
+	guards := func(x ast.Node) (fl uint64) {
+		for _, cc := range enclosingConds(p, f, x) {
+			if within(body, cc.cond) {
+				fl |= flagsRead(info, cc.cond)
+			}
+		}
+		return
+	}
 	ast.Inspect(body, func(n ast.Node) bool {
 		switch x := n.(type) {
 		case *ast.FuncLit:
@@ -89,36 +112,31 @@ func zeroesIn(p *Program, f *FuncInfo, body ast.Node) (found bool, guardFlags ui
 			if !ok {
 				return true
 			}
-			isZero := false
+			isZero, scalar := false, false
 			switch sel.Sel.Name {
 			case "SetZero":
 				isZero = len(x.Args) == 0
 			case "SetBool":
 				if len(x.Args) == 1 {
 					if tv, ok := info.Types[x.Args[0]]; ok && tv.Value != nil && tv.Value.String() == "false" {
-						isZero = true
+						isZero, scalar = true, true
 					}
 				}
 			case "SetInt", "SetUint", "SetFloat":
 				if len(x.Args) == 1 {
 					if tv, ok := info.Types[x.Args[0]]; ok && tv.Value != nil && (tv.Value.String() == "0") {
-						isZero = true
+						isZero, scalar = true, true
 					}
 				}
 			case "SetString":
 				if len(x.Args) == 1 {
 					if s, ok := ConstStr(info, x.Args[0]); ok && s == "" {
-						isZero = true
+						isZero, scalar = true, true
 					}
 				}
 			}
 			if isZero {
-				found = true
-				for _, cc := range enclosingConds(p, f, x) {
-					if within(body, cc.cond) {
-						guardFlags |= flagsRead(info, cc.cond)
-					}
-				}
+				out = append(out, zeroSite{x.Pos(), scalar, guards(x)})
 			}
 		case *ast.AssignStmt:
 			// *p = 0 / *p = ""
@@ -132,12 +150,7 @@ func zeroesIn(p *Program, f *FuncInfo, body ast.Node) (found bool, guardFlags ui
 						isZ = true
 					}
 					if isZ {
-						found = true
-						for _, cc := range enclosingConds(p, f, x) {
-							if within(body, cc.cond) {
-								guardFlags |= flagsRead(info, cc.cond)
-							}
-						}
+						out = append(out, zeroSite{x.Pos(), false, guards(x)})
 					}
 				}
 			}
@@ -156,7 +169,7 @@ func ruleNULL1(c *Ctx) {
 	ft := p.Flags()
 	merge := ft.Single["MergeWithLegacySemantics"]
 	kindT := p.NamedType("jsontext", "Kind")
-	n := 0
+	n, ns := 0, 0
 	for _, f := range unmarshalClosures(p) {
 		info := f.Info()
 		type branch struct {
@@ -182,6 +195,14 @@ func ruleNULL1(c *Ctx) {
 				if be, ok := ast.Unparen(x.Cond).(*ast.BinaryExpr); ok && be.Op == token.EQL {
 					if v, isC := ConstI64(info, be.Y); isC && v == 'n' && kindT != nil && types.Identical(info.TypeOf(be.X), kindT) {
 						branches = append(branches, branch{x.Body, x.Pos()})
+					}
+				}
+				// a quoted null (`,string` under v1 semantics): `string(val) == "null"`, possibly after an option test
+				for _, cj := range conjuncts(x.Cond) {
+					if be, ok := cj.(*ast.BinaryExpr); ok && be.Op == token.EQL {
+						if sv, isS := ConstStr(info, be.Y); isS && sv == "null" {
+							branches = append(branches, branch{x.Body, x.Pos()})
+						}
 					}
 				}
 			case *ast.CaseClause:
@@ -233,9 +254,33 @@ func ruleNULL1(c *Ctx) {
 				detail = "zeroing is conditional on option(s) other than MergeWithLegacySemantics: " + ft.Names(guards&^merge)
 			}
 			c.Oblige(key, b.pos, ok, detail)
+			// a scalar destination keeps its value on null under v1 merge semantics (encoding/json: "null has no effect")
+			sites := zeroSitesIn(p, f, b.body)
+			for _, g := range helpersCalledIn(p, f, b.body) {
+				sites = append(sites, zeroSitesIn(p, g, g.Body())...)
+			}
+			nScalar, unguarded := 0, token.NoPos
+			for _, z := range sites {
+				if z.scalar {
+					nScalar++
+					if z.flags&merge == 0 && unguarded == token.NoPos {
+						unguarded = z.pos
+					}
+				}
+			}
+			if nScalar > 0 {
+				ns++
+				pos := b.pos
+				if unguarded != token.NoPos {
+					pos = unguarded
+				}
+				c.Oblige(fmt.Sprintf("scalar-null-keeps-under-merge:%s#%d", f.Name, i+1), pos, unguarded == token.NoPos,
+					"a bool/number/string destination is zeroed by a null without consulting MergeWithLegacySemantics: under v1 semantics a null (bare or quoted) must leave a non-nil-able value unchanged, as the sibling arshalers do")
+			}
 		}
 	}
 	c.Floor("null branches in unmarshal closures", n, 12)
+	c.Floor("null branches zeroing a scalar", ns, 8)
 }
 
 func callsMethodNamed(info *types.Info, n ast.Node, name string) []*ast.CallExpr {
